@@ -4,8 +4,8 @@ import GeomV.C04.Basic
 
 Reads like the property statement and does not mention the Go functions:
 
-* `vertices g` — the vertices of `g` in storage order (a `*Bounds` contributes its four corners in the
-  documented order Min, (Max.X,Min.Y), Max, (Min.X,Max.Y)).
+* `vertices g` — the vertices of `g` in storage order (a `*Bounds` that has a point contributes its four corners in
+  the documented order Min, (Max.X,Min.Y), Max, (Min.X,Max.Y); one without points contributes nothing).
 * a box is the closed point set `mem · b`; `IsEnvelope vs b` — `b` is the smallest box containing the
   points `vs` (the empty box `(+Inf,+Inf)-(-Inf,-Inf)` when there are none);
 * `IsJoin a b j` — `j` is the least upper bound of `a` and `b` in the inclusion order of boxes;
@@ -24,7 +24,7 @@ variable {α : Type}
 /-! ## vertices in storage order -/
 
 mutual
-def vertices : Geom α → List (Pt α)
+def vertices [LT α] [DecidableLT α] : Geom α → List (Pt α)
   | .point p => [p]
   | .multiPoint ps => ps
   | .lineString ps => ps
@@ -32,9 +32,11 @@ def vertices : Geom α → List (Pt α)
   | .polygon rs => rs.flatten
   | .multiPolygon ps => (ps.map List.flatten).flatten
   | .collection gs => verticesL gs
-  | .bounds mn mx => [mn, ⟨mx.x, mn.y⟩, mx, ⟨mn.x, mx.y⟩]
+  | .bounds mn mx =>
+    -- a box that is inverted on some axis has no point, hence no corner
+    if decide (mx.x < mn.x) || decide (mx.y < mn.y) then [] else [mn, ⟨mx.x, mn.y⟩, mx, ⟨mn.x, mx.y⟩]
   | .nil => []
-def verticesL : List (Geom α) → List (Pt α)
+def verticesL [LT α] [DecidableLT α] : List (Geom α) → List (Pt α)
   | [] => []
   | g :: gs => vertices g ++ verticesL gs
 end
@@ -122,6 +124,22 @@ def boxesNonEmptyL : List (Geom α) → Bool
   | [] => true
   | g :: gs => boxesNonEmpty g && boxesNonEmptyL gs
 end
+
+/-- a `*Bounds` used as a geometry BY ITSELF is in canonical form: it has a point or it is `NewBounds()` (then its
+`Bounds()`, the box itself, is literally "the empty box"); members of a collection may be any box -/
+def topCanon [HasInf α] [DecidableEq α] : Geom α → Bool
+  | .bounds mn mx => canonB (⟨mn, mx⟩ : Box α)
+  | _ => true
+
+/-- the envelope clause read on point sets: `b` contains the points `vs` and is included in every box that does
+(for `vs = []`: `b` is included in every box, i.e. it is AN empty box, not necessarily the struct `NewBounds()`) -/
+def IsEnvelopeSet (vs : List (Pt α)) (b : Box α) : Prop :=
+  (∀ v ∈ vs, mem v b) ∧ ∀ c : Box α, (∀ v ∈ vs, mem v c) → Sub b c
+
+def isEnvelopeSetB (vs : List (Pt α)) (b : Box α) : Bool :=
+  match vs with
+  | [] => emptyB b
+  | _ :: _ => tightB vs b
 
 /-- the extreme corners of a box, none if it is empty -/
 def corners (b : Box α) : List (Pt α) := if emptyB b then [] else [b.mn, b.mx]
